@@ -288,4 +288,194 @@ theorem p2p_connSpec (hS : Static c w addrs own') (hgN : GoodChain c.node.chain)
 
 end loops
 
+-- ------------------------------------------------------------------ the notification, phase 2, with `PCI`
+
+/-- the pending records allowed during a reorganisation handled at state `x`: pending when the notification arrived,
+    or a transaction of the stored chain (Rollback re-pends the transactions of the blocks it disconnects) -/
+def AllowedAt (x : ISt) (id : TxId) (t : Tx) : Prop :=
+  AMap.get x.s.pending id = some t ∨ ∃ b0 ∈ x.node.chain, t ∈ b0.txs ∧ t.id = id
+
+section events
+variable {limit : Nat} {c : Ctx} {w : Wid} {addrs : List Addr} {own' : Own} {G : Block} {fl : Nat} {x : ISt}
+
+/-- `phase2_notify_reorg` carrying the pending-side invariant; `hsame`: a transaction of the announced chain whose id
+    is that of an allowed pending record IS that record (ids denote transactions) -/
+theorem phase2_notify_reorg_pci {n : Node} {b : Block} (hS : Static c w addrs own')
+    (hP : Phase2F c w addrs own' G fl x) (hPCI : PCI c addrs x.s x.node.chain)
+    (hN : NodeOK c.own G x.node.known n b) (hinj : IdInj (x.node.chain ++ n.chain))
+    (hagree : x.node.chain.take (fl + 1) = n.chain.take (fl + 1))
+    (hg0 : b.height = 0 → b.prev ≠ x.v.best.hash)
+    (hsame : ∀ b' ∈ n.chain, ∀ t' ∈ b'.txs, ∀ t, AllowedAt x t'.id t → t = t') :
+    ∃ x', istep limit c w addrs x (.notify n b) = some x' ∧ Phase2F c w addrs own' G fl x' ∧
+      PCI c addrs x'.s x'.node.chain := by
+  obtain ⟨g, k, hkfl, hfl, hG, hSub, hM, hcf⟩ := hP
+  have hS' : Static { c with node := n } w addrs own' := ⟨hS.minus, hS.managed, hS.ne, hS.keys⟩
+  have hknX : ∀ y ∈ x.node.chain, AMap.get n.known y.id = some y := fun y hy => hN.grows _ _ (hcf.known y hy)
+  have hne : n.chain ≠ [] := hN.good.nonempty
+  have hlen : n.chain.length ≠ 0 := fun h => hne (List.eq_nil_of_length_eq_zero h)
+  have hlast : n.chain[n.chain.length - 1]? = some b := by rw [← List.getLast?_eq_getElem?]; exact hN.tip
+  have hbh : b.height = n.chain.length - 1 := hN.good.heights _ _ hlast
+  have hb : n.chain[b.height]? = some b := by rw [hbh]; exact hlast
+  have htake : n.chain.take (b.height + 1) = n.chain := List.take_of_length_le (by omega)
+  have hfln : fl < n.chain.length := by
+    have := congrArg List.length hagree
+    rw [List.length_take, List.length_take] at this
+    omega
+  have hI : P2P { c with node := n } w addrs own' fl (AllowedAt x) x.s x.node.chain :=
+    ⟨⟨g, k, hkfl, hfl,
+      ⟨scanJS_ctx (c := { c with node := x.node }) rfl rfl rfl hG.scan, hG.flag, hG.allReady, hG.nonempty, hG.nodup⟩,
+      sub_of_subG hSub, midU_ctx (c := { c with node := x.node }) rfl rfl rfl hM⟩,
+     hPCI.own rfl, fun id t hg => Or.inl hg⟩
+  have HF : RIfaceF { c with node := n } x.node.chain fl (P2P { c with node := n } w addrs own' fl (AllowedAt x))
+      (fun _ => True) :=
+    ⟨hN.good, hcf.good, hinj, hfl, hagree,
+      fun {s n' j y} hI hj hy => by
+        obtain ⟨⟨_, _, _, _, _, _, hM⟩, _, _⟩ := hI
+        have := hM.sync j
+        rw [show AMap.get s.sync j = _ from this, syncOf, getElem?_take_of_lt hj, hy]; rfl,
+      fun {s j} hflj hjl hI _ => by
+        have hx : x.node.chain[j]? = some x.node.chain[j] := List.getElem?_eq_getElem hjl
+        have e := take_succ_of_get hx
+        have hjh : (x.node.chain[j]).height = j := hcf.good.heights _ _ hx
+        rw [e] at hI
+        have hV : ChainValid c.own (x.node.chain.take j ++ [x.node.chain[j]]) := by
+          rw [← e]; exact chainValid_take hcf.valid _
+        have hH : HeightsOK (x.node.chain.take j ++ [x.node.chain[j]]) := by
+          rw [← e]; exact heightsOK_take hcf.good.heights _
+        have hkn : ∀ y ∈ x.node.chain.take j ++ [x.node.chain[j]], AMap.get n.known y.id = some y := by
+          rw [← e]; exact fun y hy => hknX y (List.mem_of_mem_take hy)
+        have hlj : fl < (x.node.chain.take j).length := by rw [List.length_take]; omega
+        obtain ⟨s', h1, h2⟩ := p2p_disc (c := { c with node := n }) hS' hV hH hkn hlj
+          (fun t ht => Or.inr ⟨x.node.chain[j], List.getElem_mem hjl, ht, rfl⟩) hI
+        rw [hjh] at h1
+        exact ⟨s', h1, h2, trivial⟩⟩
+  obtain ⟨s', v', hpb, hI', _, hv', _⟩ := processBlock_reachesIF HF
+    (p2p_connSpec (c := { c with node := n }) hS' hN.good hN.valid hN.known hsame) hI hb (by omega) hcf.best
+    (by rw [← hcf.best]; exact hg0) trivial
+    (by
+      intro j hX hj
+      have hb' : n.chain[j + 1]? = some b := by rw [← hj]; exact hb
+      have hI0 := hI
+      rw [hX] at hI0
+      obtain ⟨s', conf, hfb, hI', _⟩ :=
+        p2p_connect (c := { c with node := n }) hS' hN.good hN.valid hN.known hsame hb' hI0
+      exact ⟨s', conf, hfb, hI', trivial⟩)
+  rw [htake] at hI' hv'
+  obtain ⟨⟨g', k', hk'fl, hfl', hG', hSub', hM'⟩, hPCI', _⟩ := hI'
+  refine ⟨{ x with s := s', v := v', node := n }, ?_, ⟨g', k', hk'fl, hfl',
+    ⟨by show k' + 1 ≤ n.chain.length; omega, hG'.scan, hG'.flag, hG'.allReady, hG'.nonempty, hG'.nodup⟩,
+    subG_of_sub hSub', hM', ⟨hv', hcf.fin, hN.good, hN.valid, hN.genesis, hN.known⟩⟩, hPCI'.own rfl⟩
+  simp only [istep, hcf.fin, hpb, Bool.false_eq_true, if_false, if_true]
+
+end events
+
+-- ------------------------------------------------------------------ histories
+
+/-- the domain of `remove_interleaved_above_nopend`, threaded along the history (`fl`: the floor once a removal step has
+    run).  NOTHING is asked at a removal step.  Before the first removal step a tip notification must EXTEND the stored
+    chain (`RemovePend.EvDom`; reorganisations before the first step are not covered here — `DomC` covers them with
+    `PendOK` assumed); after it: any announced chain that agrees with the stored one up to the floor, whose
+    transactions are the allowed pending records of the same id (`AllowedAt`).  A delivered transaction is not on the
+    chain, and an id already pending denotes it. -/
+def DomF (limit : Nat) (c : Ctx) (w : Wid) (addrs : List Addr) (G : Block) : Option Nat → ISt → List IEv → Prop
+  | _, _, [] => True
+  | fl, x, ev :: evs =>
+    (match ev with
+      | .rem => True
+      | .notify n b => NodeOK c.own G x.node.known n b ∧ IdInj (x.node.chain ++ n.chain) ∧
+          (b.height = 0 → b.prev ≠ x.v.best.hash) ∧
+          (fl = none → EvDom c addrs x (.notify n b)) ∧
+          (∀ f, fl = some f → x.node.chain.take (f + 1) = n.chain.take (f + 1) ∧
+            ∀ b' ∈ n.chain, ∀ t' ∈ b'.txs, ∀ t, AllowedAt x t'.id t → t = t')
+      | .recv t => EvDom c addrs x (.recv t)
+      | .restart v => v.best = x.v.best) ∧
+    ∀ x', istep limit c w addrs x ev = some x' → DomF limit c w addrs G (floorAfter fl x ev) x' evs
+
+section
+variable {limit : Nat} {c : Ctx} {w : Wid} {addrs : List Addr} {own' : Own} {G : Block}
+
+theorem domF_run (hS : Static c w addrs own') (ws' : List Wid) (hws : ∀ y ∈ ws', y ∈ c.wallets) :
+    ∀ (evs : List IEv) (fl : Option Nat) (x xe : ISt), PhaseF c w addrs own' G x fl →
+      PCI c addrs x.s x.node.chain →
+      DomF limit c w addrs G fl x evs → irun limit c w addrs x evs = some xe → xe.fin = true →
+      Inv { c with own := own', wallets := ws', node := xe.node } xe.s xe.node.chain := by
+  intro evs
+  induction evs with
+  | nil =>
+    intro fl x xe hP _ _ h hfin
+    simp only [irun, Option.some.injEq] at h
+    subst h
+    have := phaseF_fin hP
+    rw [hfin] at this; cases this
+  | cons ev evs ih =>
+    intro fl x xe hP hPCI hD h hfin
+    obtain ⟨hev, hdom⟩ := hD
+    simp only [irun] at h
+    cases hs : istep limit c w addrs x ev with
+    | none => rw [hs] at h; cases h
+    | some x1 =>
+      rw [hs] at h
+      have hdom' := hdom x1 hs
+      cases ev with
+      | rem =>
+        have hPCI1 := pci_istep (ev := .rem) hPCI trivial hs
+        have hnode : x1.node = x.node := istep_node hs
+        have hcore : (x1.fin = false → PhaseF c w addrs own' G x1 (floorAfter fl x .rem)) ∧
+            (x1.fin = true → ∀ ws', (∀ y ∈ ws', y ∈ c.wallets) →
+              Inv { c with own := own', wallets := ws', node := x1.node } x1.s x1.node.chain) := by
+          cases fl with
+          | none =>
+            obtain ⟨h1, h2⟩ := phase1_rem hS hP hPCI.pendOK hs
+            refine ⟨fun hf => ?_, h2⟩
+            have := phase2F_of_phase2 (h1 hf)
+            rw [hnode] at this
+            exact this
+          | some f => exact phase2F_rem hS hP hPCI.pendOK hs
+        cases hf1 : x1.fin with
+        | false => exact ih _ x1 xe (hcore.1 hf1) hPCI1 hdom' h hfin
+        | true =>
+          have := irun_fin hf1 h
+          subst this
+          exact hcore.2 hf1 ws' hws
+      | notify n b =>
+        obtain ⟨hN, hinj, hg0, hext, hfloor⟩ := hev
+        cases fl with
+        | none =>
+          have hPCI1 := pci_istep hPCI (hext rfl) hs
+          obtain ⟨x1', hs', hP'⟩ := phase1_notify (limit := limit) (addrs := addrs) hS.keys hP hN hinj hg0
+          rw [hs] at hs'
+          injection hs' with hs'
+          subst hs'
+          exact ih none x1 xe hP' hPCI1 hdom' h hfin
+        | some f =>
+          obtain ⟨hagree, hsame⟩ := hfloor f rfl
+          obtain ⟨x1', hs', hP', hPCI1⟩ :=
+            phase2_notify_reorg_pci (limit := limit) hS hP hPCI hN hinj hagree hg0 hsame
+          rw [hs] at hs'
+          injection hs' with hs'
+          subst hs'
+          exact ih (some f) x1 xe hP' hPCI1 hdom' h hfin
+      | recv t =>
+        have hPCI1 := pci_istep hPCI hev hs
+        cases fl with
+        | none => exact ih none x1 xe (phase1_recv hP hs) hPCI1 hdom' h hfin
+        | some f => exact ih (some f) x1 xe (phase2F_recv hP hs) hPCI1 hdom' h hfin
+      | restart v =>
+        have hPCI1 := pci_istep (ev := .restart v) hPCI trivial hs
+        cases fl with
+        | none => exact ih none x1 xe (phase1_restart hev hP hs) hPCI1 hdom' h hfin
+        | some f => exact ih (some f) x1 xe (phase2F_restart hev hP hs) hPCI1 hdom' h hfin
+
+/-- **removal interleaved with the follower, reorganisations above the floor, no hypothesis about the pending buckets
+    after the start**: `remove_interleaved_above` without `PendOK` at the removal steps — it is part of the invariant
+    `PCI`, carried through the floored reorganisation loops (`pci_disconnect`, `pci_connect`) -/
+theorem remove_interleaved_above_nopend {x0 x : ISt} {evs : List IEv} {ws' : List Wid}
+    (hP : Phase1 c w G x0) (hS : Static c w addrs own') (hPCI : PCI c addrs x0.s x0.node.chain)
+    (hD : DomF limit c w addrs G none x0 evs) (hrun : irun limit c w addrs x0 evs = some x) (hfin : x.fin = true)
+    (hws : ∀ y ∈ ws', y ∈ c.wallets) :
+    Inv { c with own := own', wallets := ws', node := x.node } x.s x.node.chain :=
+  domF_run hS ws' hws evs none x0 x hP hPCI hD hrun hfin
+
+end
+
 end MW.Lemmas.RemoveInterleave
